@@ -128,6 +128,10 @@ class BoundedRead:
             return e.id in self.bounded
         if isinstance(e, ast.Constant) and isinstance(e.value, int):
             return False
+        if isinstance(e, ast.IfExp):
+            return self._is_bounded_expr(e.body) and self._is_bounded_expr(e.orelse)
+        if isinstance(e, ast.Call) and isinstance(e.func, ast.Name) and e.func.id == "min" and e.args:
+            return any(self._is_bounded_expr(a) for a in e.args)
         lin = linear(e)
         if lin is not None:
             names = [k for k in lin if k and not k.startswith("len(")]
